@@ -10,19 +10,19 @@ def chk(id, cat, text, note, tech, ref, engine="mc"):
       "level_claimed":{"category":cat,"text":text,"design_ref":ref},"level_note":note,"technique":tech}
 
 chk("C07","exploration",
- "The complete product of entry point x actor kind x authentication outcome x block outcome x HTTP method x header value x body (273,600 requests) is executed on the real handlers; a monitor over the seam call log checks that nothing but Authenticate* (and, for inbox POSTs, the body hook and Blocked) is called before the checks passed, that non-ActivityPub requests touch nothing and that a disabled protocol answers 405 without consulting the application.",
+ "The complete product of entry point x actor kind x authentication outcome x block outcome x HTTP method x header value x body (273,600 requests) is executed on the real handlers; a monitor over the seam call log checks that nothing but Authenticate* (and, for inbox POSTs, the body hook and Blocked) is called before the checks passed, that non-ActivityPub requests touch nothing and that a disabled protocol answers 405 without consulting the application. Plus, for authenticated unblocked GET / POST requests, every header value again with the header that is irrelevant for the method (Accept on a POST, Content-Type on a GET) carrying the ActivityStreams type or text/html.",
  "Trusted: the application model's call log and gate monitor. Bounded by the stated header/body alphabets.",
  "bounded-exhaustive enumeration of the request product against a call-log monitor","DESIGN.md 3 C07")
 chk("C08","model_checking",
- "17 hand-written collision scenarios plus every unordered pair of 21 request kinds (231 scenarios; thorough: also every triple of the 13 state-changing kinds): 2-3 real request goroutines on one Actor run under a cooperative scheduler that owns every Database/Transport/callback call and models application locks as blocking resources; all interleavings of 2-thread scenarios (visited-state pruning) and all interleavings with <=2 (quick) / <=3 (thorough) preemptions of 3-thread scenarios are executed on the real code; oracle: no deadlock, all return, final collections equal a sequential order's as multisets, duplicates processed once; plus a supplementary free-running -race pass of the same scenarios.",
+ "17 hand-written collision scenarios plus every unordered pair of 21 request kinds (231 scenarios; thorough: also every triple of the 13 state-changing kinds): 2-3 real request goroutines on one Actor run under a cooperative scheduler that owns every Database/Transport/callback call and models application locks as blocking resources; all interleavings of 2-thread scenarios (visited-state pruning) and all interleavings with <=2 (quick) / <=3 (thorough) preemptions of 3-thread scenarios are executed on the real code; oracle: no deadlock, all return, final collections equal a sequential order's as multisets, duplicates processed once; plus a supplementary free-running -race pass of the same scenarios. Further: two requests of every multi-valued kind naming the same two local values in opposite order; the oracle is per entry (every collection / object equals that entry in some sequential order; cross-entry atomicity is not promised); sequential redelivery histories: every inbox scenario delivered 2-3 times on one application with the FIRST delivery under every single (thorough: double) fault - in the inbox once, side effects resolved at most once, no collection holds the id twice, forwarded at most once.",
  "Trusted: scheduler, state-key soundness argument (DESIGN 2.1), application locks are mutual exclusion; interleaving granularity = seam calls.",
  "stateless model checking of the implementation: exhaustive schedule enumeration under a controlled scheduler with preemption bounding and state-key pruning","DESIGN.md 3 C08")
 chk("C09","fault_enumeration",
- "Every scenario of a corpus covering each default side-effect path (each POST scenario also with application hooks wrapped around the default callbacks, plus a generated addressing family) is executed on the real handlers fault-free and once per fallible seam call failing (pairs in thorough); a lock monitor in the application model checks release-exactly-once, no re-lock, no unlock of an unheld lock and no unlocked database access on every run.",
+ "Every scenario of a corpus covering each default side-effect path (each POST scenario also with application hooks wrapped around the default callbacks, plus a generated addressing family) is executed on the real handlers fault-free and once per fallible seam call failing (pairs in thorough); a lock monitor in the application model checks release-exactly-once, no re-lock, no unlock of an unheld lock and no unlocked database access on every run. The corpus also runs with application callbacks that call back into the library in the same context (a Send) and with forwarding filters that work on the slice they are handed in place.",
  "Trusted: the application model's lock monitor; an erroring Unlock frees, an erroring Lock does not acquire; bounds: corpus scenarios, <=1 (quick) / <=2 (thorough) simultaneous faults.",
  "bounded-exhaustive fault-sequence enumeration (choice-list DFS) over the real code","DESIGN.md 3 C09")
 chk("C10","fault_enumeration",
- "C07's request product, a family of bodies varying id / required object / required target, and every corpus scenario (also with application hooks wrapped) under every single (thorough: double) seam fault are executed on the real handlers with a counting ResponseWriter; the oracle checks the exactly-one-outcome trichotomy and the documented status table (405/400/403/200/410/201+Location).",
+ "C07's request product, a family of bodies varying id / required object / required target, and every corpus scenario (also with application hooks wrapped) under every single (thorough: double) seam fault are executed on the real handlers with a counting ResponseWriter; the oracle checks the exactly-one-outcome trichotomy and the documented status table (405/400/403/200/410/201+Location). Further: application callbacks answering with the documented ErrObjectRequired / ErrTargetRequired sentinels (400), outbox scenarios with the endpoint scheme and the scheme of the minted ids differing, and every sequence of 2-3 (thorough 4) read requests through ONE handler value, each answered as when served alone.",
  "Trusted: counting writer; a denying Authenticate* writes its own 401; the ResponseWriter never fails; Announce/Accept/Reject without object not asserted.",
  "bounded-exhaustive request and fault-sequence enumeration against a status oracle","DESIGN.md 3 C10")
 
